@@ -23,6 +23,7 @@ class MemFS:
         self.dead = False
         self.on_crash = on_crash
         self.history = []        # durable content of every path after every mutating op
+        self.modes = {}          # path -> permission bits set with chmod (the process is not root)
 
     # -- fault points ------------------------------------------------------
     def point(self, op, path):
@@ -55,7 +56,15 @@ class MemFS:
             self.do_crash()
         return out
 
+    def writable(self, path):
+        return path not in self.modes or bool(self.modes[path] & 0o200)
+
     def open(self, path, mode="r", *a, **k):
+        if ("a" in mode or "w" in mode or "+" in mode) and path in self.files and not self.writable(path):
+            raise PermissionError(13, "Permission denied", path)
+        if "r" in mode and "+" not in mode and path in self.files and path in self.modes \
+                and not (self.modes[path] & 0o400):
+            raise PermissionError(13, "Permission denied", path)
         if "a" in mode:
             # append: creates the file when missing, keeps what is there
             r = self.point("open-w", path)
@@ -226,7 +235,21 @@ class FakeOs:
         if path not in self.fs.files:
             raise FileNotFoundError(path)
         del self.fs.files[path]
+        self.fs.modes.pop(path, None)
         self.fs.history.append((path, None))
+
+    def chmod(self, path, mode, *a, **k):
+        if path not in self.fs.files:
+            raise FileNotFoundError(path)
+        self.fs.modes[path] = mode & 0o7777
+
+    def access(self, path, how):
+        if path not in self.fs.files:
+            return False
+        m = self.fs.modes.get(path, 0o600)
+        return not ((how & 2 and not m & 0o200) or (how & 4 and not m & 0o400))
+
+    F_OK, R_OK, W_OK, X_OK = 0, 4, 2, 1
 
     unlink = remove
 
@@ -316,6 +339,13 @@ class GlobalRoute:
             return make
         for n in ("remove", "unlink"):
             patch(os, n, one(fos.remove))
+
+        def chmod_(real):
+            def chmod(path, mode, *a, **k):
+                r = route(path) if not isinstance(path, int) else None
+                return fos.chmod(r, mode) if r else real(path, mode, *a, **k)
+            return chmod
+        patch(os, "chmod", chmod_)
         for n in ("rename", "replace"):
             patch(os, n, two(fos.rename))
         patch(shutil, "move", two(fsh.move))
